@@ -9,8 +9,8 @@ import (
 	"time"
 
 	"cosmossdk.io/core/appmodule"
-	abci "github.com/cometbft/cometbft/abci/types"
 	"cosmossdk.io/math"
+	abci "github.com/cometbft/cometbft/abci/types"
 	sdk "github.com/cosmos/cosmos-sdk/types"
 
 	"github.com/tendermint/fundraising/x/fundraising/keeper"
@@ -113,8 +113,21 @@ func (o Op) String() string {
 	return s
 }
 
-// SignerAddr returns the address string the operation is signed with.
-func (o Op) SignerAddr() string {
+// CanonAddr returns the canonical spelling of an account address: bech32 allows an address to be
+// written all in lower case or all in upper case, both denote the same account. Strings that are
+// not valid addresses are returned unchanged.
+func CanonAddr(s string) string {
+	if s == "" {
+		return s
+	}
+	if a, err := sdk.AccAddressFromBech32(s); err == nil {
+		return a.String()
+	}
+	return s
+}
+
+// signerRaw is the signer address exactly as it is written into the message.
+func (o Op) signerRaw() string {
 	if o.SignerStr != "" {
 		return o.SignerStr
 	}
@@ -124,8 +137,8 @@ func (o Op) SignerAddr() string {
 	return ""
 }
 
-// BidderAddr returns the bidder address string of an allow-list operation.
-func (o Op) BidderAddr() string {
+// bidderRaw is the bidder address of an allow-list operation exactly as passed.
+func (o Op) bidderRaw() string {
 	if o.BidderStr != "" {
 		return o.BidderStr
 	}
@@ -134,6 +147,12 @@ func (o Op) BidderAddr() string {
 	}
 	return ""
 }
+
+// SignerAddr returns the account (canonical address) the operation is signed with.
+func (o Op) SignerAddr() string { return CanonAddr(o.signerRaw()) }
+
+// BidderAddr returns the account (canonical address) of the bidder of an allow-list operation.
+func (o Op) BidderAddr() string { return CanonAddr(o.bidderRaw()) }
 
 // Result is the outcome of applying one operation to the implementation.
 type Result struct {
@@ -209,7 +228,7 @@ func (o Op) Msg(govAddr string) sdk.Msg {
 	switch o.Kind {
 	case OpCreateFixed:
 		return &types.MsgCreateFixedPriceAuction{
-			Auctioneer:       o.SignerAddr(),
+			Auctioneer:       o.signerRaw(),
 			StartPrice:       dec(o.StartPrice),
 			SellingCoin:      rawCoin(o.SellDenom, o.SellAmount),
 			PayingCoinDenom:  o.PayDenom,
@@ -219,7 +238,7 @@ func (o Op) Msg(govAddr string) sdk.Msg {
 		}
 	case OpCreateBatch:
 		return &types.MsgCreateBatchAuction{
-			Auctioneer:        o.SignerAddr(),
+			Auctioneer:        o.signerRaw(),
 			StartPrice:        dec(o.StartPrice),
 			MinBidPrice:       dec(o.MinPrice),
 			SellingCoin:       rawCoin(o.SellDenom, o.SellAmount),
@@ -231,11 +250,11 @@ func (o Op) Msg(govAddr string) sdk.Msg {
 			EndTime:           o.End,
 		}
 	case OpCancel:
-		return &types.MsgCancelAuction{Auctioneer: o.SignerAddr(), AuctionId: o.Auction}
+		return &types.MsgCancelAuction{Auctioneer: o.signerRaw(), AuctionId: o.Auction}
 	case OpPlaceBid:
 		return &types.MsgPlaceBid{
 			AuctionId: o.Auction,
-			Bidder:    o.SignerAddr(),
+			Bidder:    o.signerRaw(),
 			BidType:   types.BidType(o.BidType),
 			Price:     dec(o.Price),
 			Coin:      rawCoin(o.CoinDenom, o.CoinAmount),
@@ -243,7 +262,7 @@ func (o Op) Msg(govAddr string) sdk.Msg {
 	case OpModifyBid:
 		return &types.MsgModifyBid{
 			AuctionId: o.Auction,
-			Bidder:    o.SignerAddr(),
+			Bidder:    o.signerRaw(),
 			BidId:     o.BidID,
 			Price:     dec(o.Price),
 			Coin:      rawCoin(o.CoinDenom, o.CoinAmount),
@@ -253,7 +272,7 @@ func (o Op) Msg(govAddr string) sdk.Msg {
 			AuctionId: o.Auction,
 			AllowedBidder: types.AllowedBidder{
 				AuctionId:    o.Auction,
-				Bidder:       o.SignerAddr(),
+				Bidder:       o.signerRaw(),
 				MaxBidAmount: math.NewIntFromBigInt(bigOf(o.MaxBid)),
 			},
 		}
@@ -263,7 +282,7 @@ func (o Op) Msg(govAddr string) sdk.Msg {
 			if o.Signer < 0 {
 				auth = govAddr
 			} else {
-				auth = o.SignerAddr()
+				auth = o.signerRaw()
 			}
 		}
 		return &types.MsgUpdateParams{
@@ -363,7 +382,7 @@ func (w *World) Apply(o Op) (res Result) {
 			defer recoverTo(&res)
 			err := w.keeper().AddAllowedBidders(cc, o.Auction, []types.AllowedBidder{{
 				AuctionId:    o.Auction,
-				Bidder:       o.BidderAddr(),
+				Bidder:       o.bidderRaw(),
 				MaxBidAmount: math.NewIntFromBigInt(bigOf(o.MaxBid)),
 			}})
 			if err != nil {
@@ -380,7 +399,7 @@ func (w *World) Apply(o Op) (res Result) {
 		cc, write := w.Ctx.CacheContext()
 		func() {
 			defer recoverTo(&res)
-			addr, err := sdk.AccAddressFromBech32(o.BidderAddr())
+			addr, err := sdk.AccAddressFromBech32(o.bidderRaw())
 			if err != nil {
 				res.Err = err.Error()
 				return
